@@ -64,8 +64,8 @@ ALLOWED_ASSUMPTIONS = {
     "assume_specification": {"i64::rem_euclid", "i128::rem_euclid", "i128::div_euclid", "i64::abs", "i32::saturating_abs",
                              "i64::saturating_sub", "i32::saturating_sub", "i32::rem_euclid", "i32::div_euclid", "i64::div_euclid", "i32::abs",
                              "i64::saturating_abs", "i64::saturating_add", "i32::saturating_add", "i32::wrapping_abs", "i64::wrapping_abs",
-                             "i32::unsigned_abs", "i64::unsigned_abs", "<FoundDateTimeList as Default>::default"},
-    "external_body": {"utc", "equal", "axiom_slice_len_transitions", "axiom_slice_len_leaps", "windows2_all_le", "swap_pairs", "position_gt"},
+                             "i32::unsigned_abs", "i64::unsigned_abs", "<FoundDateTimeList as Default>::default", "<[T]>::split_first_chunk::<N>"},
+    "external_body": {"utc", "equal", "axiom_slice_len_transitions", "axiom_slice_len_leaps", "windows2_all_le", "swap_pairs", "position_gt", "be_u32", "is_tzif_magic"},
 }
 
 
@@ -92,6 +92,7 @@ STD_SPEC_STATUS = {
     "i32::saturating_sub": "Kani cross-check complete (std_spec_saturating)",
     "i64::saturating_add": "Kani cross-check complete (std_spec_saturating; not used by the unchanged tree)",
     "i32::saturating_add": "Kani cross-check complete (std_spec_saturating; not used by the unchanged tree)",
+    "<[T]>::split_first_chunk::<N>": "assumed (it is split_at_checked(N) with the head viewed as an array); BOUNDED Kani cross-check for T = u8, N = 4, slices of up to 8 bytes (parse_abstractions::split_first_chunk_spec_bounded)",
     "<FoundDateTimeList as Default>::default": "derived Default of the Vec wrapper yields the empty list; Kani cross-check complete (find_abstractions::default_list_is_empty)",
 }
 
@@ -102,7 +103,7 @@ def check_assumptions(found, text):
     lines = text.split("\n")
     for what, ln, code in found:
         if what == "assume_specification":
-            m = re.search(r"assume_specification\s*\[\s*([^\]]+?)\s*\]", code)
+            m = re.search(r"assume_specification(?:<[^>]*>)?\s*\[\s*(.+?)\s*\]\s*\(", code)
             name = m.group(1) if m else "?"
             if name not in ALLOWED_ASSUMPTIONS["assume_specification"]:
                 bad.append("%s %s (line %d)" % (what, name, ln))
@@ -123,6 +124,8 @@ def check_assumptions(found, text):
                 out.append("ASSUMED `%s`: a slice's size in bytes never exceeds isize::MAX (Rust language guarantee; Verus only knows len <= usize::MAX)" % name)
             elif name in ("windows2_all_le", "swap_pairs", "position_gt"):
                 out.append("external_body contract on helper `%s` standing for an iterator-adapter expression of find_date_time (rule R10); proved for the original expression on every [i64; 7] by the Kani harness find_abstractions::%s_contract" % (name, name))
+            elif name in ("be_u32", "is_tzif_magic"):
+                out.append("external_body contract on helper `%s` standing for an expression of parse_header (rule R10); proved for the original expression by the complete Kani harness parse_abstractions::%s_contract" % (name, name))
             elif name.startswith("axiom_"):
                 out.append("ASSUMED lemma `%s` (external_body proof fn, not proved)" % name)
             else:
